@@ -36,11 +36,15 @@ impl BracketAtom {
         match self {
             BracketAtom::Char(c) => return BracketAtom::fmt_regex_char(*c, regex),
             BracketAtom::CollatingSymbol(value) | BracketAtom::EquivalenceClass(value) => {
-                if !value.is_empty() {
-                    regex.write_str(value)
-                } else {
+                if value.is_empty() {
                     return Err(Error::EmptyCollatingSymbol);
                 }
+                // The value stands for its literal characters, which may be
+                // special in the regular expression syntax.
+                for c in value.chars() {
+                    BracketAtom::fmt_regex_char(c, regex)?;
+                }
+                return Ok(());
             }
             BracketAtom::CharClass(class) => {
                 if ClassAsciiKind::from_name(class).is_some() {
